@@ -104,6 +104,13 @@ L_Insert ==
             /\ life' = Put(life, Key(lq.e), [fs |-> 0, deep |-> FALSE, stable |-> InItsBlock(lq.e), err |-> FALSE])
     /\ UNCHANGED <<chain, cfg, tried, pl, hq, rs, fwd>>
 
+\* The hand-over of a log is not atomic: between LogReceived (the log arrives on the subscription and the block
+\* lookup is issued) and PendingStored (the entry is in `pending`) the chain may move and the poller / the scan
+\* may run any number of heads - none of them sees the entry.  Whatever happens in between, once the entry is
+\* stored it is subject to the scan rules above: it is forwarded by the first scan that sees it deep enough.
+LogReceived(tx, i, delivered) == PushLog(tx, i, delivered)
+PendingStored == L_Insert
+
 ---------------------------------------------------------------------------
 \* B: the block poller
 B_Poll(tag) ==
